@@ -7,6 +7,10 @@
 //	marker <hex marker> extras=<csv hex> [ver=<hex>:<0|1>]* [leaf=<hex l>:<op>:<hex r>:<0|1|e>]* [ast=<hex json>]
 //	                                                   -> ok 0|1 | err
 //	resolve <hex marker> extras=<csv hex> [ver=…]* [leaf=…]*   -> ok 0|1 | err      (guarded edge present?)
+//	probe universe (root=<csv hex extras> (g=<hex marker>[:<hex ast>])+)+
+//	                                                   -> ok <r0>/<r1>/…  r_k = e | one bit per guarded edge
+//	                                                      (Go only, see universe.go: several guarded requirements
+//	                                                      per root, the roots resolved in sequence on ONE resolver)
 //
 // The ver=/leaf= fields are the semver boundary of the Lean marker model: ver
 // says whether semver.PyPI.Parse accepts an operand, leaf is the outcome of
@@ -110,6 +114,15 @@ func execOp(f []string) string {
 			return "bad-op"
 		}
 		return resolveGuarded(fw.Unhx(f[1]), list)
+	case "probe":
+		if len(f) < 3 || f[1] != "universe" {
+			return "bad-op"
+		}
+		roots, ok := parseUniverse(f[2:])
+		if !ok {
+			return "bad-op"
+		}
+		return execUniverse(roots)
 	}
 	return "bad-op"
 }
@@ -542,6 +555,13 @@ func recheck(oracle string, ops, res []string) (bool, string) {
 			return true, fmt.Sprintf("marker %q: Eval says %q, the resolver's guarded edge says %q", fw.Unhx(f[0][1]), res[0], res[1])
 		}
 		return false, ""
+	case "universe-ref":
+		if len(ops) != 1 {
+			return true, "malformed oracle instance"
+		}
+		return recheckUniverseRef(f[0], res[0])
+	case "universe-eq-single":
+		return recheckUniverseSingles(f, res)
 	}
 	return true, "unknown oracle " + oracle
 }
@@ -684,7 +704,9 @@ func main() {
 		ID: "C16",
 		Rule: "requirement strings rendered from a PEP 508 AST (names with mixed case and -_. runs, extras lists, bare and parenthesised specifier lists, markers, arbitrary space/tab choices), " +
 			"markers rendered from a grammar-stratified AST over all supported variables, all ten operators and per-variable literal pools, each with an extras set; plus byte-mutated and token-exhaustive malformed streams. " +
-			"Non-trivial = distinct input accepted by the parser under test (dep508 ok / marker ok).",
+			"Resolver observation point: single guarded edge on a fresh resolver (resolve), and universes (probe universe) of 3-10 guarded requirements whose markers are near-identical variants of one base drawn from the environment values " +
+			"(white space inside/outside quoted literals, quote style, case inside literals, operand order, operator neighbour, redundant/moved parentheses, keyword swap, a quote that swallows a keyword), kept only... " +
+			"Non-trivial = distinct input accepted by the parser under test (dep508 ok / marker ok) resp. a universe whose class-free markers have different reference truth values.",
 		Exec:     execOp,
 		Run:      run,
 		Recheck:  recheck,
